@@ -622,6 +622,18 @@ class Folder(object):
             return ExtVal(v.dotted + '.' + attr)
         if isinstance(v, (dict, list, set, str, tuple, bytes, int)):
             return ('boundmethod', v, attr)
+        if isinstance(v, ExtInstance) and v.callee == 'class.__dict__' and \
+                attr in ('items', 'keys', 'values', 'get'):
+            # the class's own namespace, in definition order
+            ci = v.args[0].ci
+            d = {}
+            for name, defs in ci.attrs.items():
+                try:
+                    d[name] = self.attrdef_value(defs[-1], ClassVal(ci),
+                                                 raw=True)
+                except (AnalysisError, FoldRaise):
+                    d[name] = Opaque('class attribute %s' % name)
+            return ('boundmethod', d, attr)
         if isinstance(v, ExtInstance):
             return Opaque('attr of external object')
         if isinstance(v, FuncVal):
@@ -814,6 +826,23 @@ class Folder(object):
                     if (k[0] > best[0]) if base == 'max' else (k[0] < best[0]):
                         best = k
                 return best[2]
+            if base == 'sorted' and len(args) == 1 and set(kwargs) <= {
+                    'key', 'reverse'} and not isinstance(args[0], Opaque):
+                items = list(args[0])
+                key = kwargs.get('key')
+                rev = kwargs.get('reverse', False)
+                if isinstance(rev, Opaque):
+                    return Opaque('sorted')
+                keys = items if key is None else [
+                    self.call(key, [x], {}, n, env) for x in items]
+                if any(isinstance(k, (Opaque, ExtInstance)) for k in keys):
+                    return Opaque('sorted')
+                try:
+                    order = sorted(range(len(items)), key=keys.__getitem__,
+                                   reverse=bool(rev))
+                except TypeError as e:
+                    raise FoldRaise('TypeError', e.args, n)
+                return [items[i] for i in order]
             if base in EXC_NAMES:
                 return ExtInstance(d, args, kwargs)
             if base == 'bool' and len(args) == 1:
@@ -1008,6 +1037,21 @@ class Folder(object):
                 return getattr(obj, name)(*args, **kwargs)
             except Exception:
                 return Opaque('str.%s' % name)
+        if name == 'sort' and isinstance(obj, list) and not args and \
+                set(kwargs) <= {'key', 'reverse'} and kwargs.get(
+                    'key') is not None:
+            # the key is a folded callable: compute the keys here
+            keys = [self.call(kwargs['key'], [x], {}, n, env) for x in obj]
+            if any(isinstance(k, (Opaque, ExtInstance)) for k in keys) or \
+                    isinstance(kwargs.get('reverse'), Opaque):
+                return Opaque('sort')
+            try:
+                order = sorted(range(len(obj)), key=keys.__getitem__,
+                               reverse=bool(kwargs.get('reverse', False)))
+            except TypeError as e:
+                raise FoldRaise('TypeError', e.args, n)
+            obj[:] = [obj[i] for i in order]
+            return None
         try:
             meth = getattr(obj, name)
         except AttributeError:
